@@ -41,7 +41,7 @@ def cases(tier, rng):
             for n in (3 * B - 1, 3 * B, 4 * B + 1, 5 * B) + ((16 * B + 3, 64 * B) if tier == 'thorough' else ()):
                 yield {'k': 'bytes', 'alg': alg, 'n': n, 'pat': pat}
             if pat == 'rand':
-                for n in (4095, 4096, 4099, 65539):          # long inputs (thresholds of buffered / chunked processing)
+                for n in (4095, 4096, 4099, 65536, 65539):          # long inputs (thresholds of buffered / chunked processing)
                     yield {'k': 'bytes', 'alg': alg, 'n': n, 'pat': pat}
         if tier == 'quick':
             Ls = set()
@@ -59,7 +59,7 @@ def cases(tier, rng):
         for over in (1, 7, 8, 9, bs):
             for n in (0, 1, B - 1, B, B + 1):
                 yield {'k': 'reject', 'alg': alg, 'n': n, 'over': over}
-        for shape in ('pending', 'pending-partial', 'finalised', 'refused-final', 'bytearray-arg', 'fresh-update'):
+        for shape in ('pending', 'pending-partial', 'finalised', 'refused-final', 'bytearray-arg', 'fresh-update', 'refused-inside-stream'):
             for n in (0, 3, B - 1, B, B + 9):
                 yield {'k': 'after-stream', 'alg': alg, 'shape': shape, 'n': n}
         # multi-word bit counters
@@ -123,6 +123,16 @@ def run(case, ctx, rng):
         shape, n = case['shape'], case['n']
         ctx.cls((alg, 'after-stream', shape, n % B, n // B))
         m = rng.randbytes(n)
+        if shape == 'refused-inside-stream':
+            # a stream in which one piece is refused (bit length beyond its data, the data holding whole blocks): the refused piece
+            # leaves no trace, the stream goes on and ends with the digest of what was accepted
+            hs = make(alg); first = rng.randbytes(B); junk = rng.randbytes(2 * B + 5)
+            def stream():
+                hs.initstate(); hs.update(first)
+                call(lambda: hs.update(junk, bitlen=8 * len(junk) + 8))
+                call(lambda: hs.update(junk, bitlen=8 * len(junk) + 1, padding=True))
+                return hs.update(m, padding=True)
+            ctx.eq('digest==reference', call(stream), mdsha.digest(alg, first + m), alg=alg, n=n, shape='update(block); refused pieces holding whole blocks; update(M, padding=True)')
         if shape == 'fresh-update':
             # a brand-new object used through update() at once (no one-shot call, no explicit initstate before)
             hf = make(alg)
